@@ -47,7 +47,7 @@ UT = "pyfvtool/utilities.py"
 # ---- advection
 mut("adv-1d-west-width", A, "    uw = u._xvalue[0:Nx]/(DXp+DXw)\n", "    uw = u._xvalue[0:Nx]/(DXp+DXe)\n", 0, ["C05", "C01", "C06"], "convectionTerm1D: west weight uses east width")
 mut("adv-3d-north-width", A, "    vn = u._yvalue[:, 1:Ny+1, :]/(DYp+DYn)\n", "    vn = u._yvalue[:, 1:Ny+1, :]/(DYp+DYs)\n", 0, ["C05", "C01", "C06", "C08"], "convectionTerm3D: north weight uses south width")
-mut("adv-sph1d-apx", A, "    APx = (ue*DXe-uw*DXw)/DXp\n", "    APx = (ue*DXe+uw*DXw)/DXp\n", 2, ["C05", "C06", "C01", "C02"], "convectionTermSpherical1D: sign in diagonal")
+mut("adv-sph1d-apx", A, "    APx = (ue*DXe-uw*DXw)/DXp\n", "    APx = (ue*DXe+uw*DXw)/DXp\n", 1, ["C05", "C06", "C01", "C02"], "convectionTermSpherical1D: sign in diagonal")
 mut("upw-2d-bottom-corr", A, "    APy[:, 0] = APy[:, 0]-vs_max[:, 0]/(2.0*DYp[0])\n", "    APy[:, 0] = APy[:, 0]-vs_max[:, 0]/(2.0*DYp[-1])\n", 0, ["C05", "C06", "C01"], "convectionUpwindTerm2D: bottom boundary correction uses last cell width")
 mut("upw-minmax-no-copy", A, "        ux_min = np.copy(u._xvalue)\n        ux_max = np.copy(u._xvalue)\n        ux_min[u_upwind._xvalue > 0.0] = 0.0",
     "        ux_min = u._xvalue\n        ux_max = np.copy(u._xvalue)\n        ux_min[u_upwind._xvalue > 0.0] = 0.0", 0, ["C15", "C05"], "_upwind_min_max 1D: masked write on the caller's array")
@@ -55,7 +55,7 @@ mut("upw-minmax-ge", A, "        uy_max[u_upwind._yvalue < 0.0] = 0.0\n        u
 mut("tvd-1d-psi-half", A, "    psi_m[0:Nx] = 0.5*FL(rm)*(phi._value[0:Nx]-phi._value[1:Nx+1])\n", "    psi_m[0:Nx] = FL(rm)*(phi._value[0:Nx]-phi._value[1:Nx+1])\n", 0, ["C05"], "convectionTvdRHS1D: factor 1/2 dropped for negative velocities")
 mut("tvd-fsign-guard", A, "    return (np.abs(phi_in) >= eps1)*phi_in+eps1*(phi_in == 0.0)+eps1*(np.abs(phi_in) < eps1)*np.sign(phi_in)\n",
     "    return phi_in\n", 0, ["C13", "C06"], "_fsign guard removed: 0/0 for equal neighbours")
-mut("tvd-cyl2d-rf", A, "    div_x = -(1.0/(DXp*rp))*(re*(ue_max*psiX_p[1:Nx+1, :]+ue_min*psiX_m[1:Nx+1, :]) -", "    div_x = -(1.0/(DXp*rp))*(rw*(ue_max*psiX_p[1:Nx+1, :]+ue_min*psiX_m[1:Nx+1, :]) -", 0, ["C05", "C01"], "convectionTvdRHSCylindrical2D: east flux weighted with west radius")
+mut("tvd-cyl2d-rf", A, "    div_x = -(1.0/(rp*DXp))*(re*(ue_max*psiX_p[1:Nx+1, :]+ue_min*psiX_m[1:Nx+1, :]) -", "    div_x = -(1.0/(rp*DXp))*(rw*(ue_max*psiX_p[1:Nx+1, :]+ue_min*psiX_m[1:Nx+1, :]) -", 0, ["C05", "C01"], "convectionTvdRHSCylindrical2D: east flux weighted with west radius")
 mut("upw-dispatch-drop", A, "        return convectionUpwindTerm3D(u, *args)[0]\n", "        return convectionUpwindTerm3D(u)[0]\n", 0, ["C05", "C17"], "dispatcher drops u_upwind on Grid3D again")
 mut("conv-polar-vn-r", A, "    vn = u._yvalue[:, 1:Ny+1]/(rp*(DYp+DYn))\n", "    vn = u._yvalue[:, 1:Ny+1]/((DYp+DYn))\n", 0, ["C05", "C01", "C02", "C17", "C08"], "convectionTermPolar2D: 1/r dropped on theta faces")
 
@@ -65,8 +65,8 @@ mut("diff-cyl3d-rp2", Dd, "    Dn = D._yvalue[:, 1:Ny+1, :]/(rp*rp*dy[1:Ny+1][np
 mut("diff-sph3d-sin", Dd, "    Ds = D._yvalue[:, 0:Ny, :]*np.sin(thetaf[:,0:Ny,:])/(rp*rp*np.sin(thetap)*dy[:,0:Ny,:]*DY[:,1:Ny+1,:])\n",
     "    Ds = D._yvalue[:, 0:Ny, :]*np.sin(thetaf[:,1:Ny+1,:])/(rp*rp*np.sin(thetap)*dy[:,0:Ny,:]*DY[:,1:Ny+1,:])\n", 0, ["C05", "C01", "C02"], "diffusionTermSpherical3D: south face uses north sin(theta)")
 mut("diff-2d-apy", Dd, "    APy = -(AN+AS)\n", "    APy = -(AN+AN)\n", 0, ["C05", "C06", "C01"], "diffusionTerm2D: diagonal built from AN twice")
-mut("diff-3d-jjz", Dd, "    jjz = np.hstack([G[1:Nx+1, 1:Ny+1, 0:Nz].ravel(),\n                     G[1:Nx+1, 1:Ny+1, 1:Nz+1].ravel(),\n                     G[1:Nx+1, 1:Ny+1, 2:Nz+2].ravel()])",
-    "    jjz = np.hstack([G[1:Nx+1, 1:Ny+1, 2:Nz+2].ravel(),\n                     G[1:Nx+1, 1:Ny+1, 1:Nz+1].ravel(),\n                     G[1:Nx+1, 1:Ny+1, 0:Nz].ravel()])", 0, ["C05", "C01", "C08"], "diffusionTerm3D: back/front columns swapped")
+mut("diff-3d-jjz", Dd, "    jjz = np.hstack([G[1:Nx+1, 1:Ny+1, 0:Nz].ravel(),\n                    G[1:Nx+1, 1:Ny+1, 1:Nz+1].ravel(),\n                     G[1:Nx+1, 1:Ny+1, 2:Nz+2].ravel()])",
+    "    jjz = np.hstack([G[1:Nx+1, 1:Ny+1, 2:Nz+2].ravel(),\n                    G[1:Nx+1, 1:Ny+1, 1:Nz+1].ravel(),\n                     G[1:Nx+1, 1:Ny+1, 0:Nz].ravel()])", 0, ["C05", "C01", "C08"], "diffusionTerm3D: back/front columns swapped")
 
 # ---- boundary
 mut("bc-2d-top-dy", B, "        phiBC[i,j]= (BC.top.c-phi[:,-1]*(-BC.top.a/dy_end+BC.top.b/2))/(BC.top.a/dy_end+BC.top.b/2)\n",
